@@ -73,7 +73,9 @@ func (c *Chain) ftAbs() (ftState, []string) {
 }
 
 var ftSegs = []string{"home", "docs", "pics", "a", "b", "日本", "x y", "", "s", "50% off", "100%", "a%%b", "%s", "%5d", "tab\there", "quote\"q", "é",
-	"cafe\u0301.txt", "caf\u00e9.txt", "\u212b", "\ufb01le", ".", ".."}
+	"cafe\u0301.txt", "caf\u00e9.txt", "\u212b", "\ufb01le", ".", "..",
+	// white space at the edges of a segment is part of the name (a client that trims it posts elsewhere)
+	"notes.txt ", " lead", " ", "tab\t", "\u30e1\u30e2\u3000", "\n"}
 
 // clientJ: what the client-side message builder puts into MsgPostFile for a plain path
 func clientJ(path string) []string {
@@ -149,7 +151,7 @@ func runFiletree(seed int64, histories, steps int, out *Emitter) {
 				}
 				post, bad := c.ftAbs()
 				out.Emit(map[string]interface{}{"mod": "filetree", "hist": hi, "i": i, "h": c.H, "pre": pre, "op": "restart", "ok": true, "post": post,
-					"badKeys": bad, "respPath": "", "actors": actors})
+					"badKeys": bad, "respPath": "", "actors": actors, "genesis": c.ftGenesisJ()})
 				out.Count("filetree.restart", true)
 			}
 			if r.Intn(10) == 0 {
@@ -384,4 +386,24 @@ func runFiletree(seed int64, histories, steps int, out *Emitter) {
 		}
 		c.Close()
 	}
+}
+
+// ftGenesisJ decodes the filetree part of the last exported application state in the exported order.
+func (c *Chain) ftGenesisJ() interface{} {
+	var app map[string]json.RawMessage
+	if json.Unmarshal(c.LastExport, &app) != nil {
+		return nil
+	}
+	var gs fttypes.GenesisState
+	if err := c.A.AppCodec().UnmarshalJSON(app[fttypes.ModuleName], &gs); err != nil {
+		return map[string]interface{}{"error": err.Error()}
+	}
+	fs, ks := []interface{}{}, []interface{}{}
+	for _, f := range gs.FilesList {
+		fs = append(fs, ftEntryJ(f))
+	}
+	for _, k := range gs.PubKeyList {
+		ks = append(ks, map[string]interface{}{"address": k.Address, "key": k.Key})
+	}
+	return map[string]interface{}{"filesList": fs, "pubKeyList": ks, "validateOk": gs.Validate() == nil}
 }
